@@ -6,7 +6,8 @@ Content-Range arguments are (x.start, x.end-1, len) of the very x passed to
 get_range, Content-Range is present iff 206, the 200 body is get_range(0..len);
 (R3) entity data reaches the body only through the length-checked stream over
 get_range, and none of the stream types can buffer or replay a chunk (no field
-of the data type).  Does not decide: what an entity returns for a range."""
+of the data type), and the layers above them hand each chunk on unchanged, once.
+Does not decide: what an entity returns for a range."""
 from . import serve_model as SM
 from . import rangeparse as RP
 from . import C03
@@ -25,5 +26,6 @@ def run(ctx):
     who.entity_bytes_flow(ctx, "C02.R3")
     from . import bodyrules as BR
     BR.exactlen_ctor_passthrough(ctx, "C02.R3.ctor")
+    BR.layers_transparent(ctx, "C02.R3.layers")
     from . import multipart as MP
     MP.stream_frame(ctx, "C02.R3.frame")
